@@ -37,7 +37,8 @@ STATE_MEASURE = "hash of (operation kind, outcome kind, per-configuration store 
 REQUIRED_PROBES = ("transport_calls", "cache_hit_after_success", "op_with_transport_failure",
                    "refetch_without_cache_remote", "metaschema_ref_resolved", "store_doc_resolved")
 
-OPS = ["is_valid", "exhaust", "validate", "take_close", "take_drop", "resolve", "resolving", "resolve_from_url"]
+OPS = ["is_valid", "exhaust", "validate", "take_close", "take_drop", "resolve", "resolving", "resolve_from_url",
+       "resolving", "in_scope"]
 KINDS = ["lru", "pass", "tiny"]
 
 
@@ -96,10 +97,16 @@ def generate(rng, tier="quick"):
                 op["k"] = rng.choice([0, 1, 1, 2, 3])
         elif kind == "resolve_from_url":
             op["ref"] = rng.choice(absolute)
+        elif kind == "in_scope":
+            op["scope"] = rng.choice(["sub/", "http://sim.test/root/sub/", "#x"] + sorted(world["docs"]))
+            op["ref"] = rng.choice(refs)
+            op["body_raises"] = rng.random() < 0.2
         else:
             op["ref"] = rng.choice(refs)
             if kind == "resolving":
                 op["body_raises"] = rng.random() < 0.3
+                if rng.random() < 0.6:
+                    op["inner"] = rng.choice(refs)      # resolve again from inside the entered reference
         ops.append(op)
     return {"property": PROPERTY, "world": world, "configs": configs, "ops": ops,
             "requests": rng.random() < 0.4}
